@@ -204,6 +204,17 @@ def check(ctx):
                          "that node is then missing from the order or placed after a dependent" % "; ".join(sorted(set(extra)))[:160], p_.file, p_.line))
             else:
                 r3.ok("the node is emitted unless it is visited or on the stack")
+        # every dependency is descended into: inside the dependency loop the recursive call is guarded only by the iteration itself, the lookup of the
+        # dependency list and membership tests on the visited/visiting sets — not by what an earlier dependency returned (`cyclic || visit(dep)`
+        # short-circuits: the dependencies after the first cyclic one are skipped and emitted after the node)
+        for rc in [c for c in v.calls if c.best == v.id and c.bb in v.reach_blocks]:
+            odd = [x for x in v.must_conditions(rc.bb, sequencing=False)
+                   if not re.search(r"Iterator>::next\(\)=Some|::next\(\)=Some|HashMap::get\(\)=Some|HashSet::contains\(\)=(false|true)|HashMap::contains_key\(\)=true|Option::\w+\(\)=Some|=Some$", x)]
+            if odd:
+                r3.bad(V(r3.id, v.id, "recursion-skipped-under:%s" % ";".join(sorted(odd))[:100],
+                         "the descent into a dependency also depends on %s: a dependency that is not descended into is emitted after the node that needs it" % "; ".join(sorted(odd))[:160], rc.file, rc.line))
+            else:
+                r3.ok("every listed dependency is descended into (guards: iteration, lookup, visited/visiting membership)")
         # D2
         if len(pushes) != 1:
             r2.bad(V(r2.id, v.id, "push-sites:%d" % len(pushes), "expected exactly one sorted.push in topological_visit, found %d" % len(pushes)))
